@@ -82,7 +82,9 @@ func main() {
 		workers := fs.Int("workers", 16, "")
 		unwind := fs.Int("unwind", 3000, "")
 		budget := fs.Int("budget", 0, "seconds")
+		solverKind := fs.String("solver", "z3", "")
 		fs.Parse(os.Args[2:])
+		exploreSolver = *solverKind
 		os.Exit(cmdExplore(*pkg, *h, *tier, *workers, *unwind, *budget))
 	case "check":
 		os.Exit(cmdCheck(os.Args[2:]))
@@ -112,7 +114,7 @@ func cmdExplore(pkg, h string, tier, workers, unwind, budget int) int {
 		fmt.Println("no such harness", h)
 		return 2
 	}
-	res := exploreHarness(prog, fn, runOpts{tier: tier, unwind: unwind, maxSteps: 50_000_000, solver: "z3", timeoutMS: 10000, workers: workers, budgetS: budget}, nil, nil)
+	res := exploreHarness(prog, fn, runOpts{tier: tier, unwind: unwind, maxSteps: 50_000_000, solver: exploreSolver, timeoutMS: 10000, workers: workers, budgetS: budget}, nil, nil)
 	fmt.Printf("%s: paths=%d done=%d assumed=%d viol=%d unsupported=%d unwound=%d internal=%d branches=%d queries=%d solver=%.1fs wall=%.1fs\n",
 		res.Name, res.Stats.paths, res.Stats.done, res.Stats.assumed, res.Stats.violations, res.Stats.unsupported, res.Stats.unwound, res.Stats.internal,
 		res.Stats.branches, res.Stats.queries, res.Stats.solverTime, res.Wall)
@@ -181,3 +183,5 @@ func cmdSelftest(args []string) int {
 	fmt.Printf("selftest ok: 3 solvers, %d paths, %d witnesses replayed natively\n", res.Stats.paths, ok)
 	return 0
 }
+
+var exploreSolver = "z3"
